@@ -35,6 +35,7 @@ type c01Case struct {
 	ToCl    []outOp // written by the server
 	ReadAPI string  // read | reader
 	Buf     int
+	Early   bool // the client starts writing as soon as it has the 101, before the server has taken the connection over
 }
 
 func genC01Len(rt *rapid.T, big bool) int {
@@ -55,7 +56,11 @@ func genC01Ops(rt *rapid.T, maxOps int, label string) []outOp {
 	ops := make([]outOp, n)
 	for i := range ops {
 		o := &ops[i]
-		o.Kind = rapid.SampledFrom([]string{"write", "writer"}).Draw(rt, "kind")
+		o.Kind = rapid.SampledFrom([]string{"write", "write", "write", "writer", "writer", "writer", "wping"}).Draw(rt, "kind")
+		if o.Kind == "wping" {
+			genWPing(rt, o, 70000)
+			continue
+		}
 		o.Text = rapid.Bool().Draw(rt, "text")
 		o.CKind = rapid.IntRange(0, numContentKinds-1).Draw(rt, "ckind")
 		o.Seed = rapid.Uint64().Draw(rt, "seed")
@@ -77,12 +82,6 @@ func runC01(t fataler, c c01Case) (string, c01Result) {
 	var res c01Result
 	e := newEnv(t)
 	defer e.Teardown()
-	pr, err := e.openPair(c.Spec)
-	if err != nil {
-		return "handshake: " + err.Error(), res
-	}
-	pr.Cl.SetReadLimit(-1)
-	pr.Sv.SetReadLimit(-1)
 	ctx := context.Background()
 	type dir struct {
 		name  string
@@ -93,10 +92,11 @@ func runC01(t fataler, c c01Case) (string, c01Result) {
 		rerr  string
 		wdone <-chan struct{}
 		rdone <-chan struct{}
+		all   chan struct{} // closed when every expected message has been read
+		extra string
 	}
-	dirs := []*dir{{name: "client->server", from: pr.Cl, to: pr.Sv, ops: c.ToSrv}, {name: "server->client", from: pr.Sv, to: pr.Cl, ops: c.ToCl}}
-	for _, d := range dirs {
-		d := d
+	dirs := []*dir{{name: "client->server", ops: c.ToSrv}, {name: "server->client", ops: c.ToCl}}
+	startWriter := func(d *dir) {
 		d.wdone = e.Call(func() {
 			for i, o := range d.ops {
 				payload := expand(o.CKind, o.Seed, o.Len)
@@ -111,7 +111,35 @@ func runC01(t fataler, c c01Case) (string, c01Result) {
 				}
 			}
 		})
+	}
+	spec := c.Spec
+	if c.Early && len(c.ToSrv) > 0 {
+		spec.AfterDial = func(cl *websocket.Conn) {
+			dirs[0].from = cl
+			startWriter(dirs[0])
+		}
+	}
+	pr, err := e.openPair(spec)
+	if err != nil {
+		return "handshake: " + err.Error(), res
+	}
+	pr.Cl.SetReadLimit(-1)
+	pr.Sv.SetReadLimit(-1)
+	dirs[0].from, dirs[0].to = pr.Cl, pr.Sv
+	dirs[1].from, dirs[1].to = pr.Sv, pr.Cl
+	for _, d := range dirs {
+		d := d
+		if d.wdone == nil {
+			startWriter(d)
+		}
+		d.all = make(chan struct{})
 		d.rdone = e.Call(func() {
+			allRead := false
+			defer func() {
+				if !allRead {
+					close(d.all)
+				}
+			}()
 			buf := make([]byte, c.Buf)
 			type keptMsg struct {
 				got  []byte
@@ -172,13 +200,20 @@ func runC01(t fataler, c c01Case) (string, c01Result) {
 					keptBytes += len(got)
 				}
 			}
+			allRead = true
+			close(d.all)
+			// keep reading until the connection is closed: the peer's Pings are answered
+			// from here, and nothing that was never written may arrive
+			if _, b, err := d.to.Read(ctx); err == nil {
+				d.extra = fmt.Sprintf("%s: an extra message of %d bytes arrived that was never written", d.name, len(b))
+			}
 		})
 	}
 	for _, d := range dirs {
 		if !within(d.wdone, 600*time.Second) {
 			return d.name + ": writer did not finish within 600 s (virtual)", res
 		}
-		if !within(d.rdone, 600*time.Second) {
+		if !within(d.all, 600*time.Second) {
 			if d.werr != "" {
 				return d.werr, res
 			}
@@ -196,17 +231,19 @@ func runC01(t fataler, c c01Case) (string, c01Result) {
 	}
 	// nothing extra must arrive: both sides close cleanly
 	cd := e.Call(func() { pr.Cl.Close(websocket.StatusNormalClosure, "") })
-	var extra error
-	var extraN int
-	sd := e.Call(func() {
-		_, b, err := pr.Sv.Read(ctx)
-		extra, extraN = err, len(b)
-	})
-	if !within(sd, 60*time.Second) || !within(cd, 60*time.Second) {
+	if !within(cd, 60*time.Second) {
 		return "closing after the exchange did not finish", res
 	}
-	if extra == nil {
-		return fmt.Sprintf("an extra message of %d bytes arrived that was never written", extraN), res
+	for _, d := range dirs {
+		if !within(d.rdone, 60*time.Second) {
+			return d.name + ": the reader did not end after Close", res
+		}
+		if d.rerr != "" {
+			return d.rerr, res
+		}
+		if d.extra != "" {
+			return d.extra, res
+		}
 	}
 	// classification from the wire tap (never part of the verdict)
 	for i, wire := range [][]byte{pr.ClientWire(), pr.ServerWire()} {
@@ -234,7 +271,7 @@ func runC01(t fataler, c c01Case) (string, c01Result) {
 }
 
 func c01Classes(c c01Case, res c01Result) (bool, string, []string) {
-	shape := fmt.Sprintf("%s/%s|%d/%d|%d/%d|%s", modeName(c.Spec.ClMode), modeName(c.Spec.SvMode), c.Spec.ClThreshold, c.Spec.SvThreshold, c.Spec.Capacity, c.Spec.MaxRead, c.ReadAPI)
+	shape := fmt.Sprintf("%s/%s|%d/%d|%d/%d|%s|%v", modeName(c.Spec.ClMode), modeName(c.Spec.SvMode), c.Spec.ClThreshold, c.Spec.SvThreshold, c.Spec.Capacity, c.Spec.MaxRead, c.ReadAPI, c.Early)
 	for _, ops := range [][]outOp{c.ToSrv, c.ToCl} {
 		shape += "|"
 		for _, o := range ops {
@@ -257,12 +294,23 @@ func c01Classes(c c01Case, res c01Result) (bool, string, []string) {
 	if res.ZeroChunk {
 		classes = append(classes, "zero-length-chunk")
 	}
+	if c.Early && len(c.ToSrv) > 0 {
+		classes = append(classes, "client-bytes-buffered-before-hijack")
+	}
+	for _, ops := range [][]outOp{c.ToSrv, c.ToCl} {
+		for _, o := range ops {
+			if o.Kind == "wping" {
+				classes = append(classes, "ping-inside-message")
+				return res.Rsv1 || res.MultiFrame, shape, classes
+			}
+		}
+	}
 	return res.Rsv1 || res.MultiFrame, shape, classes
 }
 
 func TestC01(t *testing.T) {
 	rec := evid.For("C01")
-	rec.Rule = "library client <-> library server over a tapped in-memory transport: rapid draws the 3x3 compression modes, thresholds {default,1,64,512,5000,100000}^2, transport buffer capacity and read chunking, 0-12 messages per direction (both directions at once) with boundary-biased lengths (0..70000, framing boundaries 125/126/65535/65536, multiples of 4096, 1 MiB, 1 MiB+1; thorough: 4 MiB), five content kinds incl. long-range repeats beyond the 32 KiB window, Write or Writer with chunk lists from {0,1,3,125,126,4095,4096,4097,8192,40000}, read by Read or Reader with buffers 1..32768; plus a deterministic boundary sweep. Oracle: same count, order, type, byte-identical payloads, clean EOF, caller buffers unchanged, nothing extra. Non-trivial: the wire tap shows an RSV1 message or a message of >=2 frames. distinct = hash(modes, thresholds, transport, per-message (kind, content kind, length class, chunks))."
+	rec.Rule = "library client <-> library server over a tapped in-memory transport: rapid draws the 3x3 compression modes, thresholds {default,1,64,512,5000,100000}^2, transport buffer capacity and read chunking, 0-12 messages per direction (both directions at once) with boundary-biased lengths (0..70000, framing boundaries 125/126/65535/65536, multiples of 4096, 1 MiB, 1 MiB+1; thorough: 4 MiB), five content kinds incl. long-range repeats beyond the 32 KiB window, Write or Writer with chunk lists from {0,1,3,125,126,4095,4096,4097,8192,40000} or a Writer message interrupted by a Ping call after its first Write, in a sixth of the cases the client starts writing as soon as it has the 101 so that its first frames are already buffered in the hijacked bufio.Reader when Accept takes over; read by Read or Reader with buffers 1..32768; plus a deterministic boundary sweep. Oracle: same count, order, type, byte-identical payloads, clean EOF, caller buffers unchanged, nothing extra. Non-trivial: the wire tap shows an RSV1 message or a message of >=2 frames. distinct = hash(modes, thresholds, transport, per-message (kind, content kind, length class, chunks))."
 	rapid.Check(t, func(rt *rapid.T) {
 		var c c01Case
 		c.Spec.ClMode = rapid.SampledFrom(c01Modes).Draw(rt, "clMode")
@@ -275,6 +323,19 @@ func TestC01(t *testing.T) {
 		c.ToCl = genC01Ops(rt, 12, "toCl")
 		c.ReadAPI = rapid.SampledFrom([]string{"read", "reader"}).Draw(rt, "readAPI")
 		c.Buf = rapid.SampledFrom([]int{1, 7, 512, 4096, 32768}).Draw(rt, "buf")
+		c.Early = rapid.IntRange(0, 5).Draw(rt, "early") == 0
+		if c.Spec.Capacity != 0 {
+			// Pongs are written by the goroutine that reads. With a bounded transport buffer
+			// and Pings travelling in both directions at once, both readers can end up
+			// writing a Pong that the other one is not reading: a property of any
+			// endpoint that answers from its read loop, not of message fidelity. Pings in
+			// one direction only cannot form that cycle.
+			for i := range c.ToCl {
+				if c.ToCl[i].Kind == "wping" {
+					c.ToCl[i].Kind = "writer"
+				}
+			}
+		}
 		if c.Spec.MaxRead == 1 || c.Buf == 1 {
 			// one-byte transport reads / caller buffers with megabyte messages only cost time
 			for _, ops := range [][]outOp{c.ToSrv, c.ToCl} {
